@@ -42,7 +42,9 @@ ASSUMPTIONS = [
 ]
 REQUIRED_MONITORS = ("echo_accepted", "echo_accepted_clock_moved_during_op", "perturbed_refused", "perturbed_error_response_refused", "community_fault_refused", "discovery_msgid_refused")
 
-OPS = ("get", "multiget", "getnext", "multigetnext", "set", "multiset", "bulkget", "walk", "multiwalk", "bulkwalk", "table", "bulktable")
+OPS = ("get", "multiget", "getnext", "multigetnext", "set", "multiset", "bulkget", "walk", "multiwalk", "bulkwalk", "table", "bulktable",
+       # the lenient walks (errors="warn" forgives a device that does not advance - nothing else)
+       "walk-warn", "multiwalk-warn", "pywalk-warn")
 STEPS = (0, 0.3, 0.7, 1, 2.5, 1000)
 DB = {(1, 3, 6, 1, 2, 1, 5, 1, c, r): ("int", 10 * c + r) for c in (1, 2) for r in (1, 2, 3)}
 DB[(1, 3, 6, 1, 2, 1, 6, 1, 0)] = ("str", b"tail")
@@ -69,6 +71,12 @@ def call(w, op):
         return drive_agen(c.walk(OID((1, 3, 6, 1, 2, 1, 5))), limit=50)
     if op == "multiwalk":
         return drive_agen(c.multiwalk([OID((1, 3, 6, 1, 2, 1, 5)), OID((1, 3, 6, 1, 2, 1, 6))]), limit=50)
+    if op == "walk-warn":
+        return drive_agen(c.walk(OID((1, 3, 6, 1, 2, 1, 5)), errors=rig.lenient()), limit=50)
+    if op == "multiwalk-warn":
+        return drive_agen(c.multiwalk([OID((1, 3, 6, 1, 2, 1, 5)), OID((1, 3, 6, 1, 2, 1, 6))], errors=rig.lenient()), limit=50)
+    if op == "pywalk-warn":
+        return drive_agen(w.py.walk("1.3.6.1.2.1.5", errors=rig.lenient()), limit=50)
     if op == "bulkwalk":
         return drive_agen(c.bulkwalk([OID((1, 3, 6, 1, 2, 1, 5))], bulk_size=2), limit=50)
     if op == "table":
@@ -87,8 +95,10 @@ def norm(op, res):
         return [rig.to_tuple(v) for v in res]
     if op == "getnext":
         return (rig.oid_t(res.oid), rig.to_tuple(res.value))
-    if op in ("multigetnext", "walk", "multiwalk", "bulkwalk"):
+    if op in ("multigetnext", "walk", "multiwalk", "bulkwalk", "walk-warn", "multiwalk-warn"):
         return [(rig.oid_t(vb.oid), rig.to_tuple(vb.value)) for vb in res]
+    if op == "pywalk-warn":
+        return [(rig.oid_t(vb.oid), ("py", vb.value)) for vb in res]
     if op == "multiset":
         return {rig.oid_t(k): rig.to_tuple(v) for k, v in res.items()}
     if op == "bulkget":
@@ -323,6 +333,17 @@ def run(R):
             for fault, delta in (("community", 1), ("community", -1), ("version", 1), ("version", -1), ("rid", 1), ("rid", ("abs", 0))):
                 for k in (1, 2):
                     run_case(R, "v1", op, fault, k, delta, 12345, True, 2)
+        # lenient walks: a foreign request-id on the first or a later response is refused
+        # like anywhere else (what "warn" forgives is a device that does not advance)
+        for op in ("walk-warn", "multiwalk-warn", "pywalk-warn"):
+            for level in ("v1", "v2c", "v3-md5", "v3-sha1-priv"):
+                for k in (0, 1, 2):
+                    for delta in (1, -1, ("abs", 0), 2**31):
+                        run_case(R, level, op, "rid", k, delta, None, True, None)
+                        R.mon["lenient_walks_with_a_foreign_request_id"] += 1
+                for fault in ("community", "version"):
+                    if not level.startswith("v3"):
+                        run_case(R, level, op, fault, 1, 1, None, True, None)
     budget.MONITOR.off()
 
 
